@@ -299,6 +299,39 @@ func leadsToReturnTrue(call *ssa.Call) bool {
 				return true
 			}
 		}
+		// single-exit spelling: the true branch assigns `true` to the result variable — some returned phi has a
+		// constant-true edge coming out of a block the true successor dominates
+		isTrue := func(v ssa.Value) bool {
+			k, ok := v.(*ssa.Const)
+			return ok && k.Value != nil && k.Value.String() == "true"
+		}
+		seen := map[*ssa.Phi]bool{}
+		var viaPhi func(v ssa.Value) bool
+		viaPhi = func(v ssa.Value) bool {
+			ph, ok := v.(*ssa.Phi)
+			if !ok || seen[ph] {
+				return false
+			}
+			seen[ph] = true
+			for i, e := range ph.Edges {
+				if i >= len(ph.Block().Preds) {
+					continue
+				}
+				pred := ph.Block().Preds[i]
+				if isTrue(e) && (tb == pred || tb.Dominates(pred)) {
+					return true
+				}
+				if viaPhi(e) {
+					return true
+				}
+			}
+			return false
+		}
+		for _, ret := range returnsOf(call.Parent()) {
+			if len(ret.Results) == 1 && viaPhi(ret.Results[0]) {
+				return true
+			}
+		}
 	}
 	return false
 }
